@@ -630,3 +630,30 @@ mod tests {
         assert_eq!(purl.combined_name(), "libc");
     }
 }
+
+#[cfg(feature = "verif")]
+#[doc(hidden)]
+pub use format::verif_format;
+
+/// Verification hooks: thin public wrappers over private functions. No behavior of their own.
+#[cfg(feature = "verif")]
+#[doc(hidden)]
+pub mod verif_lib {
+    use super::*;
+
+    pub fn is_valid_package_type(s: &str) -> bool {
+        super::is_valid_package_type(s)
+    }
+
+    pub fn lowercase_in_place(s: &mut SmallString) {
+        super::lowercase_in_place(s)
+    }
+
+    pub fn copy_as_lowercase(s: &str) -> SmallString {
+        super::copy_as_lowercase(s)
+    }
+
+    pub fn str_preview_mut(s: &mut str) -> Result<(), ParseError> {
+        super::str_preview_mut(s)
+    }
+}
